@@ -236,7 +236,7 @@ public:
      * \brief Setter for the signal quality field.
      * \param new_antenna The signal quality signal.
      */
-    void signal_quality(uint8_t new_signal_quality);
+    void signal_quality(uint16_t new_signal_quality);
 
     /**
      * \brief Setter for the antenna field.
